@@ -4,7 +4,7 @@ import common, zoo as zoolib, filelevel, workloads, shapes
 from common import Pair, proof_stage, rebuild_tools, build_pqh, build_zoo, Lock, TRUSTED_BASE
 
 MODULE = "PQ.Props.C14"
-THEOREMS = ["PQ.C14." + t for t in ("excluded_contributes_nothing", "getFields_insert", "getChildren_congr'", "excluded_inert", "excluded_inert_many", "multi_name_dropped", "embed_eq_inline_fuel", "embed_eq_inline", "upper_not_primitive", "tag_dash_anywhere", "tag_dash_excluded", "exported_test_recognised")]
+THEOREMS = ["PQ.C14." + t for t in ("excluded_contributes_nothing", "getFields_insert", "getChildren_congr'", "excluded_inert", "excluded_inert_many", "multi_name_split", "embed_eq_inline_fuel", "embed_eq_inline", "upper_not_primitive", "tag_dash_anywhere", "tag_dash_excluded", "exported_test_recognised")]
 
 # ---------------------------------------------------------------- abstract declarations
 # type expr: ("id", name) | ("star", t) | ("arr", t, fixedlen) | ("map", k, v) | ("chan", t) | ("func", [(pname, t)...]) |
@@ -78,6 +78,9 @@ BASES = [
     [("In", [(["X"], ID("float64"), None), (["Y"], ("star", ID("uint32")), 'json:"y" parquet:"why"')]),
      ("Mid", [([], ID("In"), None), (["Z"], ID("bool"), None)]),
      ("T", [([], ID("Mid"), None), (["W"], ID("uint64"), None), (["V"], ("star", ID("In")), None)])],
+    # field declarations with several names sharing one type (and one tag-less declaration each)
+    [("Pt", [(["X", "Y"], ID("float64"), None), (["Label"], ("star", ID("string")), 'parquet:"label"')]),
+     ("T", [(["A", "B", "C"], ID("int32"), None), (["P", "Q"], ("star", ID("Pt")), None), (["Tags", "More"], ("arr", ID("string"), False), None)])],
 ]
 
 EXOTIC = [ID("int32"), ID("string"), ("star", ID("float64")), ("map", ID("string"), ID("int32")), ("chan", ID("int32")),
